@@ -228,7 +228,7 @@ var (
 	globalNameParts = []string{"a", "A_1", "app", "VERSION", "x9", "\u00e9t\u00e9", "9x", "x y", "-", "$a", "", "", "_"}
 	globalSeps      = []string{" = ", " = ", " = ", "=", " =", "= ", " == ", " = = ", "\t=\t", ":", " ", ""}
 	globalValues    = []string{"1", "-7", "0x1F", "1.5", "1e3", "true", "false", "null", "'s'", "'it\\'s'", "'\\u00e9'", "'unterminated", "\"dq\"", "[1, 2, 'x']", "['a': 1]", "[]", "[:]",
-		"1 2 3", "$x", "A_1", "app.VERSION", "1 +", "", " ", "'a' + 'b'", "not true", "-", "9999999999999999999999", "'\\'", "// c", "1 // c", "{", "}", "{$x}"}
+		"1 2 3", "$x", "A_1", "app.VERSION", "1 +", "", " ", "'a' + 'b'", "'it\\'s' // note", "'a' // b 'c", "\"x\" // 'y", "'a // b'", "1 // it's", "'x' /* c */", "'\\'' // '", "'a'//", "// 'q", "not true", "-", "9999999999999999999999", "'\\'", "// c", "1 // c", "{", "}", "{$x}"}
 	globalJunk = []string{"", "\n", "// comment\n", "/* block */\n", "   \n", "\t\n", "no equals here\n", "=\n", " = \n", "= 1\n", "#!shebang\n", "\r\n", "\x00\n", "\xff\xfe\n"}
 )
 
